@@ -28,6 +28,18 @@ type Case struct {
 	// Fmt: "" (global default formatter) | "exec:en" | "exec:es" (WithIssueFormatter) |
 	// "i18n:-" | "i18n:<lang>" (i18n installed globally, WithCtxValue("lang", <lang>))
 	Fmt string
+	// AltDest: the destination is of the schema's SECOND destination type (GoTypeAlt)
+	AltDest bool
+	// WarmOther: before the case proper, the same schema object is executed once with the OTHER
+	// destination type (schemas are reusable across destination types that have their fields)
+	WarmOther bool
+}
+
+func (c *Case) destType() reflect.Type {
+	if c.AltDest {
+		return c.Schema.GoTypeAlt()
+	}
+	return c.Schema.GoType()
 }
 
 type Iss struct {
@@ -127,6 +139,15 @@ func Run(c *Case) (res *Result) {
 	if c.Mode == "p" {
 		data = c.Input.Go()
 	}
+	if c.WarmOther {
+		w := *c
+		w.AltDest, w.WarmOther = !c.AltDest, false
+		runOn(schema, &w, rec, data)
+		rec.Events, rec.Order, rec.OrderPaths, rec.CtxLeak = nil, map[string][]string{}, nil, ""
+		if c.Mode == "p" {
+			data = c.Input.Go()
+		}
+	}
 	return runOn(schema, c, rec, data)
 }
 
@@ -190,7 +211,7 @@ func runOnOpt(schema z.ZogSchema, c *Case, rec *Recorder, data any, hook bool) (
 		}
 		defer func() { p.VerifFieldHook = nil }()
 	}
-	dest := reflect.New(c.Schema.GoType())
+	dest := reflect.New(c.destType())
 	SetD(c.Schema, dest.Elem(), c.Dest)
 	defer func() {
 		if r := recover(); r != nil {
